@@ -172,6 +172,8 @@ def safe_callable_names(root: ast.Module) -> Collection[str]:
         for node in function_defs:
             if node.name in defined_names:
                 continue
+            if node.decorator_list:
+                continue  # The name is bound to whatever the decorator returns
             nonreturn_children = []
             for child in node.body:
                 if core.is_blocking(child):
